@@ -34,7 +34,7 @@ cleanup() {
   rm -rf "$S"
 }
 trap cleanup EXIT
-./run.sh C20 quick --no-evidence > "$S/base.out" 2>&1; sigs < "$S/base.out" > "$S/base.sigs"
+VERIF_C20_FAMILIES=B ./run.sh C20 quick --no-evidence > "$S/base.out" 2>&1; sigs < "$S/base.out" > "$S/base.sigs"
 if grep -q HARNESS-ERROR "$S/base.out"; then echo "baseline run has a harness error"; grep HARNESS "$S/base.out" | cut -c1-300; exit 2; fi
 echo "baseline signatures (unmutated tree): $(wc -l < "$S/base.sigs")"
 fail=0
@@ -47,7 +47,7 @@ for m in checks/c20b/mutants/*.diff; do
   # the scratch copy must be /repo's WORKING TREE, not only HEAD
   (cd /repo && git diff HEAD) | (cd "$w" && patch -s -p1) 2>/dev/null
   (cd "$w" && patch -s -p1 < "$OLDPWD/$m") || { echo "FAIL $name: mutant does not apply to the current tree"; fail=1; continue; }
-  VERIF_REPO="$w" ./run.sh C20 quick --no-evidence > "$S/$name.out" 2>&1; sigs < "$S/$name.out" > "$S/$name.sigs"
+  VERIF_C20_FAMILIES=B VERIF_REPO="$w" ./run.sh C20 quick --no-evidence > "$S/$name.out" 2>&1; sigs < "$S/$name.out" > "$S/$name.sigs"
   new=$(comm -13 "$S/base.sigs" "$S/$name.sigs"); gone=$(comm -23 "$S/base.sigs" "$S/$name.sigs")
   if grep -q HARNESS-ERROR "$S/$name.out"; then echo "FAIL $name: harness error"; grep HARNESS-ERROR "$S/$name.out" | cut -c1-400; fail=1
   else case "$expect" in
